@@ -706,7 +706,7 @@ func lossPart(run *vlib.Run, pool *vlib.Pool) map[string]any {
 	var probes []LossCase
 	for _, wal := range []bool{false, true} {
 		for _, sh := range lossShapes[wal] {
-			probes = append(probes, LossCase{Loss: "none", WAL: wal, Shape: sh, K: -1})
+			probes = append(probes, LossCase{Loss: "none", WAL: wal, Shape: sh, K: -1, ImportAt: -1})
 		}
 	}
 	info := map[key]LossResult{}
@@ -730,7 +730,15 @@ func lossPart(run *vlib.Run, pool *vlib.Pool) map[string]any {
 		}
 		for _, loss := range []string{"demote", "revoke", "handoff"} {
 			for k := 0; k < r.Steps; k++ {
-				cases = append(cases, LossCase{Loss: loss, WAL: p.WAL, Shape: p.Shape, K: k, Commit: r.CommitStep})
+				cases = append(cases, LossCase{Loss: loss, WAL: p.WAL, Shape: p.Shape, K: k, Commit: r.CommitStep, ImportAt: -1})
+			}
+			// the same with an import waiting for the write lock held by the transaction: loss between the start of the
+			// wait and the commit step
+			at := r.LockedFrom
+			if at >= 0 && loss == "demote" {
+				for k := at + 1; k <= r.CommitStep; k++ {
+					cases = append(cases, LossCase{Loss: loss, WAL: p.WAL, Shape: p.Shape, K: k, Commit: r.CommitStep, ImportAt: at + 1})
+				}
 			}
 		}
 	}
